@@ -16,7 +16,7 @@ using VATA::Util::AutDescription;
 
 namespace {
 
-// printable ASCII without whitespace and the reserved ( ) , : ; never containing "->"
+// names without whitespace and the reserved ( ) , : ; never containing "->" (printable ASCII, or any other non-blank byte)
 std::string make_name(uint32_t a, uint32_t b, bool plain)
 {
 	static const std::string allowed = [] {
@@ -25,7 +25,18 @@ std::string make_name(uint32_t a, uint32_t b, bool plain)
 		return s;
 	}();
 	static const std::string simple = "abcdefghijklmnopqrstuvwxyz0123456789_";
-	const std::string& cs = plain ? simple : allowed;
+	// WIDE names (a third of the non-plain ones): every byte that is neither white space, NUL nor reserved punctuation may
+	// occur in a name - bytes >= 0x80 (UTF-8 letters) and the control characters outside \t \n \v \f \r, also at the
+	// first and the last position; half of the positions stay ASCII
+	static const std::string wide = [] {
+		std::string s;
+		for (int c = 0x80; c <= 0xff; ++c) s += static_cast<char>(c);
+		for (int c = 0x01; c <= 0x08; ++c) s += static_cast<char>(c);
+		for (int c = 0x0e; c <= 0x1f; ++c) s += static_cast<char>(c);
+		s += static_cast<char>(0x7f);
+		return s + allowed + allowed.substr(0, 64);
+	}();
+	const std::string& cs = plain ? simple : ((a / 8) % 3 == 0 ? wide : allowed);
 	uint64_t v = gen::mix(a, b);
 	size_t len = 1 + v % 6;
 	std::string s;
